@@ -89,12 +89,29 @@ var c16Contexts = []ctxTemplate{
 	{"or-chain-head-150", "SELECT a FROM t WHERE ({C})" + strings.Repeat(" OR b = 2", 150)},
 	{"and-chain-middle-300", "SELECT a FROM t WHERE c = 1" + strings.Repeat(" AND b = 2", 150) + " AND ({C})" + strings.Repeat(" AND b = 2", 150)},
 	{"deep-nesting", "SELECT a FROM t WHERE a IN (SELECT b FROM (SELECT b FROM u WHERE EXISTS (SELECT 1 FROM v WHERE {C})) z)"},
+	{"intersect-left", "SELECT a FROM t WHERE {C} INTERSECT SELECT a FROM u"},
+	{"intersect-right", "SELECT a FROM t INTERSECT SELECT a FROM u WHERE {C}"},
+	{"except-left", "SELECT a FROM t WHERE {C} EXCEPT SELECT a FROM u"},
+	{"except-right", "SELECT a FROM t EXCEPT ALL SELECT a FROM u WHERE {C}"},
+	{"intersect-in-cte", "WITH c AS (SELECT a FROM t INTERSECT SELECT a FROM u WHERE {C}) SELECT a FROM c"},
+	{"except-in-subquery", "SELECT a FROM t WHERE a IN (SELECT b FROM u EXCEPT SELECT b FROM v WHERE {C})"},
+	{"not-exists-subquery", "SELECT a FROM t WHERE NOT EXISTS (SELECT 1 FROM u WHERE {C})"},
+	{"not-in-subquery", "SELECT a FROM t WHERE a NOT IN (SELECT b FROM u WHERE {C})"},
+	{"all-subquery", "SELECT a FROM t WHERE a > ALL (SELECT b FROM u WHERE {C})"},
 	// the same payload at two places of one statement: two findings, counted twice
 	{"twice-and", "SELECT a FROM t WHERE ({C}) AND d = 5 AND ({C})"},
 	{"twice-union-arms", "SELECT a FROM t WHERE {C} UNION SELECT a FROM u WHERE {C}"},
 	{"twice-outer-and-subquery", "SELECT a FROM t WHERE ({C}) AND a IN (SELECT b FROM u WHERE {C})"},
 	{"twice-two-statements", "SELECT a FROM t WHERE {C}; DELETE FROM u WHERE {C}"},
 	{"twice-select-list-and-having", "SELECT ({C}) FROM t GROUP BY a HAVING {C}"},
+}
+
+var mixedCaseKeywords = map[string]bool{}
+
+func init() {
+	for _, k := range strings.Fields("SELECT FROM WHERE AND OR NOT UNION ALL INTERSECT EXCEPT NULL IN EXISTS ANY JOIN LEFT RIGHT INNER ON GROUP BY HAVING ORDER AS CASE WHEN THEN ELSE END BETWEEN LIKE IS WITH RECURSIVE INSERT INTO VALUES UPDATE SET DELETE RETURNING MERGE USING MATCHED LATERAL OVER PARTITION ROWS PRECEDING CURRENT ROW CONFLICT DO LIMIT OFFSET DISTINCT TRUE FALSE") {
+		mixedCaseKeywords[k] = true
+	}
 }
 
 func findingsKey(r *security.ScanResult) []string {
@@ -133,6 +150,39 @@ func layouts(r *Rng, sql string) []string {
 		}
 	}
 	out = append(out, strings.Join(ws, " "))
+	// keywords in alternating case (UnIoN, oR, sElEcT …); identifiers, calls and literals keep their spelling
+	var mb strings.Builder
+	inQ := false
+	i := 0
+	for i < len(sql) {
+		ch := sql[i]
+		if ch == '\'' {
+			inQ = !inQ
+		}
+		if !inQ && (ch >= 'a' && ch <= 'z' || ch >= 'A' && ch <= 'Z' || ch == '_') {
+			j := i
+			for j < len(sql) && (sql[j] >= 'a' && sql[j] <= 'z' || sql[j] >= 'A' && sql[j] <= 'Z' || sql[j] == '_' || sql[j] >= '0' && sql[j] <= '9') {
+				j++
+			}
+			w := sql[i:j]
+			if mixedCaseKeywords[strings.ToUpper(w)] && (j >= len(sql) || sql[j] != '(') {
+				for k := 0; k < len(w); k++ {
+					if k%2 == 0 {
+						mb.WriteByte(w[k] &^ 0x20)
+					} else {
+						mb.WriteByte(w[k] | 0x20)
+					}
+				}
+			} else {
+				mb.WriteString(w)
+			}
+			i = j
+			continue
+		}
+		mb.WriteByte(ch)
+		i++
+	}
+	out = append(out, mb.String())
 	return out
 }
 
@@ -211,7 +261,7 @@ func runC16(c *runCtx) {
 				want = append(append([]string{}, p.want...), p.want...)
 			}
 			for li, lay := range layouts(c.rng, sql) {
-				if c.quick && li > 1 && (n%3 != 0) {
+				if c.quick && li > 1 && li < 4 && (n%3 != 0) {
 					n++
 					continue
 				}
@@ -244,6 +294,10 @@ func runC16(c *runCtx) {
 		{"select a, b, c from t union all select null, null, null from u", []string{"UNION_BASED:HIGH"}},
 		{"SELECT a FROM t WHERE a IN (SELECT x FROM v UNION SELECT NULL, NULL)", []string{"UNION_BASED:HIGH"}},
 		{"SELECT a, b FROM t UNION SELECT c, NULL FROM u", nil},
+		{"SELECT a, b, c FROM t UNION SELECT login, NULL, secret FROM u", nil},
+		{"SELECT a, b, c FROM t UNION SELECT x, NULL, NULL FROM u", nil},
+		{"SELECT a, b, c FROM t UnIoN SeLeCt NuLl, nUlL, NULL", []string{"UNION_BASED:HIGH"}},
+		{"SELECT a FROM t uNiOn select Table_Name from Information_Schema.Tables", []string{"UNION_BASED:CRITICAL"}},
 		{"WITH c AS (SELECT a, b FROM t UNION SELECT NULL, NULL) SELECT * FROM c", []string{"UNION_BASED:HIGH"}},
 		{"SELECT a FROM t UNION SELECT table_name FROM information_schema.tables", []string{"UNION_BASED:CRITICAL"}},
 		{"SELECT a FROM t UNION SELECT name FROM sqlite_master", []string{"UNION_BASED:CRITICAL"}},
